@@ -833,3 +833,138 @@ Definition join_never_timed_out (sched : list sstep) : bool := forallb (fun s =>
 (* the worst schedule: everything is put, the writer has not been scheduled once, the join times out, exit *)
 Definition sched_full_backlog (h : list cevent) : list sstep :=
   map (fun _ => SMain) (cassette_queue h) ++ [STimeout; SMain].
+
+(* ------------------------------------------------------------------ *)
+(* Part 6: the handlers as functions of the WHOLE ScenarioFinished     *)
+(* event (added after seeded regression                                *)
+(* C16_d_final_scenarios_not_recorded)                                 *)
+(*                                                                      *)
+(* engine/events.py:128-175: a ScenarioFinished event carries phase,    *)
+(* label (None in the stateful phase), status, skip_reason, is_final    *)
+(* (Hypothesis replays a failing stateful sequence once more: real      *)
+(* traffic with fresh case ids; the unit phases emit is_final = True    *)
+(* for the ERROR event of an operation that could not be built) and the *)
+(* recorder (its own label, cases with checks, interactions).           *)
+(* CassetteWriter.handle_event (cassettes.py:60-62) looks at the TYPE   *)
+(* of the event only; JunitXMLHandler.handle_event (junitxml.py:21-31)  *)
+(* at recorder.label, status and skip_reason.  Neither looks at         *)
+(* is_final, phase or event.label.  The rule deciding which events a    *)
+(* handler acts on is a parameter (forward_rule): the code is           *)
+(* forward_all, every other rule is a sentinel.                         *)
+(* ------------------------------------------------------------------ *)
+Inductive phase_name := PhProbing | PhExamples | PhCoverage | PhFuzzing | PhStateful.
+
+Record sf_event := {
+  sf_phase : phase_name;
+  sf_label : option label;       (* event.label: None in the stateful phase *)
+  sf_status : status;
+  sf_skip_reason : bool;         (* event.skip_reason is not None *)
+  sf_is_final : bool;
+  sf_rlabel : label;             (* event.recorder.label *)
+  sf_cases : list case_rec;      (* event.recorder.cases with recorder.checks *)
+  sf_inters : list inter         (* event.recorder.interactions, in insertion order *)
+}.
+Inductive fevent := FScenario (e : sf_event) | FNonFatal (l : label) | FEngineFinished | FOther.
+
+Definition forward_rule := sf_event -> bool.
+(* the code as it is: isinstance(event, ScenarioFinished) and nothing else *)
+Definition forward_all : forward_rule := fun _ => true.
+(* sentinel (seeded C16_d): a final scenario is taken for a repetition of a recorded one *)
+Definition skip_final : forward_rule := fun e => negb (sf_is_final e).
+
+(* CassetteWriter.handle_event: the queue items one event adds *)
+Definition cassette_handle (fwd : forward_rule) (e : fevent) : list qmsg :=
+  match e with
+  | FScenario e => if fwd e then [QProcess (sf_inters e)] else []
+  | _ => []
+  end.
+Definition cassette_queue_ev (fwd : forward_rule) (h : list fevent) : list qmsg :=
+  QInit :: flat_map (cassette_handle fwd) h ++ [QFinalize].
+Definition written_ev_gen (fwd : forward_rule) (w : wconf) (h : list fevent) : list (N * bool) * wend :=
+  writer_loop_gen entry_raises w (cassette_queue_ev fwd h) [].
+Definition written_ev : wconf -> list fevent -> list (N * bool) * wend := written_ev_gen forward_all.
+
+(* what the engine delivered to the reporters: the interactions of the recorder of EVERY ScenarioFinished *)
+Definition ids_of (e : sf_event) : list N := map i_id (sf_inters e).
+Definition delivered_ev (h : list fevent) : list N :=
+  flat_map (fun e => match e with FScenario e => ids_of e | _ => [] end) h.
+(* delivered and handed to the writer / delivered and dropped by the handler, under a rule *)
+Definition recorded_by (fwd : forward_rule) (h : list fevent) : list N :=
+  flat_map (fun e => match e with FScenario e => if fwd e then ids_of e else [] | _ => [] end) h.
+Definition lost_by (fwd : forward_rule) (h : list fevent) : list N :=
+  flat_map (fun e => match e with FScenario e => if fwd e then [] else ids_of e | _ => [] end) h.
+
+(* the reduced event of Part 3 that a full event is, under a rule *)
+Definition cevent_of (fwd : forward_rule) (e : fevent) : cevent :=
+  match e with
+  | FScenario e => if fwd e then CScenario (sf_inters e) else COther
+  | _ => COther
+  end.
+
+(* executor._execute: ctx.on_event first (Statistic, whatever the handler does), then JunitXMLHandler.handle_event.
+   For a FAILURE event add_failure (junitxml.py:44-57) renders EVERY group stored under the label with
+   format_failures, which reads response.text = content.decode(encoding or utf-8) (core/failures.py:306,
+   core/transport.py:92-93) and catches UnicodeDecodeError only: an unknown codec (LookupError) or a codec that
+   raises something else (undefined: UnicodeError) escapes, _execute re-raises, the run aborts (Internal Error).
+   The group of a case keeps the response of that case, so the handler state carries the ids of the cases whose
+   response text cannot be decoded (bad). *)
+Definition recorder_of (e : sf_event) : recorder := {| r_label := sf_rlabel e; r_cases := sf_cases e |}.
+Definition jevent_of (e : fevent) : event :=
+  match e with
+  | FScenario e => ScenarioFinished (recorder_of e) (sf_status e) (sf_skip_reason e)
+  | FNonFatal l => NonFatalError l
+  | FEngineFinished => EngineFinished
+  | FOther => OtherEvent
+  end.
+(* response.text raises something that is not UnicodeDecodeError (CodecOk covers the empty payload: <EMPTY>, no decode) *)
+Definition text_raises (i : inter) : bool := i_response i && match i_codec i with CodecOk => false | _ => true end.
+Definition bad_ids (e : sf_event) : list N := map i_id (filter text_raises (sf_inters e)).
+Inductive abort := AbortKey (l : label) | AbortText (case_id : N).
+Inductive jresult_ev := Aborted (a : abort) | RunningEv (s : stat) (t : tcases) (w : option tcases) (bad : list N).
+Definition lift_ev (bad : list N) (r : jresult) : jresult_ev :=
+  match r with Crash l => Aborted (AbortKey l) | Running s t w => RunningEv s t w bad end.
+
+Definition junit_step_ev (fwd : forward_rule) (s : stat) (t : tcases) (w : option tcases) (bad : list N) (e : fevent) : jresult_ev :=
+  match e with
+  | FScenario e' =>
+    let bad1 := bad ++ bad_ids e' in
+    if fwd e' then
+      match sf_status e' with
+      | StFailure =>
+        let g := match dget (sf_rlabel e') (failures (on_scenario_finished s (recorder_of e'))) with Some g => g | None => [] end in
+        match find (fun cg => mem (fst cg) bad1) g with
+        | Some cg => Aborted (AbortText (fst cg))
+        | None => lift_ev bad1 (junit_step false s t w (jevent_of e))
+        end
+      | _ => lift_ev bad1 (junit_step false s t w (jevent_of e))
+      end
+    else RunningEv (on_scenario_finished s (recorder_of e')) t w bad1
+  | _ => lift_ev bad (junit_step false s t w (jevent_of e))
+  end.
+Fixpoint junit_from_ev (fwd : forward_rule) (s : stat) (t : tcases) (w : option tcases) (bad : list N) (h : list fevent) : jresult_ev :=
+  match h with
+  | [] => RunningEv s t w bad
+  | e :: h' =>
+    match junit_step_ev fwd s t w bad e with
+    | Aborted a => Aborted a
+    | RunningEv s1 t1 w1 bad1 => junit_from_ev fwd s1 t1 w1 bad1 h'
+    end
+  end.
+Definition junit_run_ev_gen (fwd : forward_rule) (h : list fevent) : jresult_ev := junit_from_ev fwd stat0 [] None [] h.
+Definition junit_run_ev : list fevent -> jresult_ev := junit_run_ev_gen forward_all.
+(* region: every response text that could be rendered can be decoded (or fails with UnicodeDecodeError, which is caught) *)
+Definition texts_decodable (h : list fevent) : bool :=
+  forallb (fun e => match e with FScenario e => forallb (fun i => negb (text_raises i)) (sf_inters e) | _ => true end) h.
+(* recorder labels of the FAILURE-status events, whatever their other attributes *)
+Fixpoint failure_labels_ev (h : list fevent) : list label :=
+  match h with
+  | [] => []
+  | FScenario e :: h' => match sf_status e with StFailure => sf_rlabel e :: failure_labels_ev h' | _ => failure_labels_ev h' end
+  | _ :: h' => failure_labels_ev h'
+  end.
+
+(* region for the VCR writer over full events *)
+Definition no_raising_codec_ev (h : list fevent) : bool :=
+  forallb (fun e => match e with
+                    | FScenario e => forallb (fun i => match i_codec i with CodecRaises => false | _ => true end) (sf_inters e)
+                    | _ => true end) h.
